@@ -68,7 +68,12 @@ class InterruptArith(Interrupt, ZeroDivisionError):
     pass
 
 
-INTERRUPT_CLASSES = [Interrupt, InterruptRuntime, InterruptTimeout, InterruptKey, InterruptValue, InterruptArith]
+class InterruptStop(Interrupt, StopIteration):
+    """What a callback built on next(iterator) raises when its budget of sub-cubes runs out; inside
+    multiprocessing's map() a StopIteration from the mapped function is taken for the end of the input."""
+
+
+INTERRUPT_CLASSES = [Interrupt, InterruptRuntime, InterruptTimeout, InterruptKey, InterruptValue, InterruptArith, InterruptStop]
 
 
 def cube_with_k(rng, kind, k):
